@@ -6,7 +6,7 @@
    the `..`/`:` guard resolves inside the root), PrefixRule (route-prefix stripping), ModelConforms (the model
    answers what the property admits), and per world the positive half and the redirect / index rule.  Each named
    deviation (the pre-repair serve_as_file_path and six plausible bugs) must be refuted.
-2. spec -> code (method A): TLC prints for every path of the bound the answers the property admits per world;
+2. spec -> code (method A; threaded and tokio builds of the library handlers): TLC prints for every path of the bound the answers the property admits per world;
    the harness builds the worlds on disk (canary and an index.html twin beside the root) and calls the real
    serve_dir, directory_handler (under three route prefixes, directory given with and without trailing slash)
    and serve_as_file_path in-process, comparing status, Location, Content-Type, body identity, canary marker.
@@ -40,8 +40,8 @@ def lines_of(objs):
     return "\n".join(json.dumps(x, separators=(",", ":")) for x in objs) + "\n"
 
 
-def replay_vectors(ctx, binpath, scratch, header, vectors, label, threads=8):
-    p = run_bin(binpath, ["replay", scratch, str(threads)], stdin_data=lines_of(header) + lines_of(vectors), timeout=1800)
+def replay_vectors(ctx, binpath, scratch, header, vectors, label, threads=8, data=None):
+    p = run_bin(binpath, ["replay", scratch, str(threads)], stdin_data=data or (lines_of(header) + lines_of(vectors)), timeout=1800)
     res = [x for x in parse_jsonl(p.stdout) if x.get("summary")]
     if p.returncode != 0 or not res:
         raise vlib.ToolError("staticfs replay failed rc=%s: %s" % (p.returncode, p.stderr[-2000:]))
@@ -80,18 +80,19 @@ def run(tier, replay):
     thorough = tier == "thorough"
     bindir = build_harness(["staticfs"])
     binpath = os.path.join(bindir, "staticfs")
+    tokio_bin = os.path.join(build_harness(["staticfs"], tokio=True), "staticfs")
     work = vlib.workdir("C06")
     scratch = os.path.join(work, "fs-%d" % os.getpid())
     os.makedirs(scratch, exist_ok=True)
     try:
-        return _run(ctx, thorough, binpath, scratch, replay)
+        return _run(ctx, thorough, binpath, tokio_bin, scratch, replay)
     finally:
         shutil.rmtree(scratch, ignore_errors=True)
 
 
-def _run(ctx, thorough, binpath, scratch, replay):
+def _run(ctx, thorough, binpath, tokio_bin, scratch, replay):
     # ---- 1. model checking ---------------------------------------------------------------------------------
-    mcs = [("MC_StaticFs_quick.cfg", "30 spellings, depth<=3, 3 routes")]
+    mcs = [("MC_StaticFs_quick.cfg", "24 spellings, depth<=3, 3 routes")]
     if thorough:
         mcs = [("MC_StaticFs_wide.cfg", "46 spellings, depth<=3, 3 routes"),
                ("MC_StaticFs_mid.cfg", "24 spellings, depth<=4, 3 routes"),
@@ -130,9 +131,14 @@ def _run(ctx, thorough, binpath, scratch, replay):
             raise vlib.ToolError("generation %s printed no vectors" % cfg)
         if first_vectors is None:
             first_vectors = vectors
-        s = replay_vectors(ctx, binpath, scratch, header, vectors, label)
+        data = lines_of(header) + lines_of(vectors)
+        s = replay_vectors(ctx, binpath, scratch, header, vectors, label, data=data)
         account(ctx, s, label, cfg)
-        del vectors, g
+        if label != "deep=5":
+            # the tokio build of the library handlers (serve_dir, serve_as_file_path) sees the same vectors
+            s = replay_vectors(ctx, tokio_bin, scratch, header, vectors, label + " tokio", data=data)
+            account(ctx, s, label + " (tokio handlers)", cfg)
+        del vectors, g, data
 
     # ---- 4a. binding self-test: a corrupted expectation must be rejected ------------------------------------
     served = [v for v in first_vectors if v["d"][0][0] == "f" and len(v["d"][0]) == 3][:1]
@@ -149,30 +155,35 @@ def _run(ctx, thorough, binpath, scratch, replay):
     nworlds, per_world = (60, 500) if thorough else (12, 250)
     wpath = os.path.join(scratch, "worlds.ndjson")
     tpath = os.path.join(scratch, "trace.ndjson")
-    p = run_bin(binpath, ["random", str(nworlds), str(per_world), scratch, wpath], timeout=1200)
-    if p.returncode != 0:
-        raise vlib.ToolError("staticfs random failed: " + p.stderr[-1500:])
-    recs = parse_jsonl(p.stdout)
-    with open(tpath, "w") as f:
-        f.write(p.stdout)
-    t = run_tlc("Trace_StaticFs.tla", "Trace_StaticFs.cfg", D, workers=1, env={"TRACE": tpath, "WORLDS": wpath},
-                timeout=2400, work_id="c06", deque=True)
-    ctx.add_tlc("trace validation of %d answers in %d random worlds" % (len(recs), nworlds), t)
-    served_n = sum(1 for r in recs if r["st"] in (200, 301))
-    ctx.cov["evaluations"] += len(recs)
-    ctx.cov["traces_validated_against_impl"] += len(recs)
-    ctx.add_part("random", worlds=nworlds, answers=len(recs), served_or_redirected=served_n,
-                 canary_or_panic=sum(1 for r in recs if r["canary"]))
-    if t.violation:
-        if t.violated_name == "TraceWorldsOk":
-            raise vlib.ToolError("a random world is malformed or the handler model fails on it: %s" % "\n".join(t.trace[:40]))
-        rej = t.prints[-1]["rejected"] if t.prints and isinstance(t.prints[-1], dict) and "rejected" in t.prints[-1] else []
-        if not rej:
-            raise vlib.ToolError("trace validation failed without a verdict: %s" % t.out[-1500:])
-        pretty = [dict(r, uri_text=bytes(r["uri"]).decode("utf-8", "replace"), route_text=bytes(r["route"]).decode("utf-8", "replace")) for r in rej]
-        ctx.violation("answers recorded from the real handlers are not admitted by the property; first: %s" % json.dumps(pretty[0]),
-                      {"kind": "staticfs-trace", "rejected": pretty, "worlds": [json.loads(x) for x in open(wpath)]})
-    if recs and ctx.cov["samples"] is not None:
+    recs = None
+    for which, bp, nw in (("threaded", binpath, nworlds), ("tokio", tokio_bin, max(6, nworlds // 3))):
+        wp = wpath if which == "threaded" else os.path.join(scratch, "worlds-tokio.ndjson")
+        p = run_bin(bp, ["random", str(nw), str(per_world), scratch, wp], timeout=1200)
+        if p.returncode != 0:
+            raise vlib.ToolError("staticfs random (%s) failed: %s" % (which, p.stderr[-1500:]))
+        rs = parse_jsonl(p.stdout)
+        if which == "threaded":
+            recs = rs
+        with open(tpath, "w") as f:
+            f.write(p.stdout)
+        t = run_tlc("Trace_StaticFs.tla", "Trace_StaticFs.cfg", D, workers=1, env={"TRACE": tpath, "WORLDS": wp},
+                    timeout=2400, work_id="c06", deque=True)
+        ctx.add_tlc("trace validation of %d answers of the %s handlers in %d random worlds" % (len(rs), which, nw), t)
+        ctx.cov["evaluations"] += len(rs)
+        ctx.cov["traces_validated_against_impl"] += len(rs)
+        ctx.add_part("random " + which, worlds=nw, answers=len(rs), served_or_redirected=sum(1 for r in rs if r["st"] in (200, 301)),
+                     canary_or_panic=sum(1 for r in rs if r["canary"]),
+                     by_handler={h: sum(1 for r in rs if r["h"] == h) for h in sorted(set(r["h"] for r in rs))})
+        if t.violation:
+            if t.violated_name == "TraceWorldsOk":
+                raise vlib.ToolError("a random world is malformed or the handler model fails on it: %s" % "\n".join(t.trace[:40]))
+            rej = t.prints[-1]["rejected"] if t.prints and isinstance(t.prints[-1], dict) and "rejected" in t.prints[-1] else []
+            if not rej:
+                raise vlib.ToolError("trace validation failed without a verdict: %s" % t.out[-1500:])
+            pretty = [dict(r, uri_text=bytes(r["uri"]).decode("utf-8", "replace"), route_text=bytes(r["route"]).decode("utf-8", "replace")) for r in rej]
+            ctx.violation("answers recorded from the real %s handlers are not admitted by the property; first: %s" % (which, json.dumps(pretty[0])),
+                          {"kind": "staticfs-trace", "runtime": which, "rejected": pretty, "worlds": [json.loads(x) for x in open(wp)]})
+    if recs:
         ex = next((r for r in recs if r["st"] == 200 and len(r["uri"]) > 12), recs[0])
         ctx.sample({"random": True, "handler": ex["h"], "uri": bytes(ex["uri"]).decode("utf-8", "replace"), "status": ex["st"], "content_id": ex["id"], "content_type": ex["ct"]})
 
@@ -201,6 +212,7 @@ def _run(ctx, thorough, binpath, scratch, replay):
         "Expect*/Conforms in StaticFs.tla is the reading of the property (DESIGN 5a): strict 200/301/404 for clean paths, any 4xx without file bytes for paths with dot-dot, NUL, malformed escapes",
         "OsLookup models Linux path resolution for worlds without symbolic links",
         "the harness maps bodies to content ids by exact byte equality; file contents contain every byte value",
-        "directory_handler is called with an AppState built from Config::default() with logging off and cache size 0",
+        "directory_handler is called with an AppState built from Config::default() with logging off (cache off; in the random runs also with the cache on)",
+        "the tokio build of serve_dir / serve_as_file_path / serve_file is driven on a current-thread runtime; the server's directory_handler exists only in the threaded build",
     ]
     return ctx.finish()
